@@ -54,7 +54,9 @@ def gen_history(iw, rng, length):
             for i, part in enumerate(shape.split('+')):
                 if i: seq.append('+')
                 seq += ['h%d' % rng.choice(doms) for _ in range(int(part))]
-            l = 'mk.cplx\t0\t%s\t-\t%s\t%s' % (rng.choice(['-', '-', 'X', 'Y', 'c1']), ' '.join(seq), sst); kind = 'cplx'
+            nm = rng.choice(['-', '-', 'X', 'Y', 'c1', '1', '2'])
+            pf = rng.choice(['-', '-', '', 'k']) if nm == '-' else '-'          # automatic names with an explicit (also empty) prefix
+            l = 'mk.cplx\t0\t%s\t%s\t%s\t%s' % (nm, pf, ' '.join(seq), sst); kind = 'cplx'
         elif r < 0.50:
             l = 'mk.strand\t0\t%s\t%s' % (rng.choice(['-', 'S']), ' '.join('h%d' % rng.choice(doms) for _ in range(rng.randint(1, 3)))); kind = 'strand'
         elif r < 0.57 and cx:
